@@ -6,15 +6,15 @@
 (* (IsEmpty, IsAllConnections, Equal, ContainedIn, Contains, String) must  *)
 (* agree with the denotations.                                             *)
 (***************************************************************************)
-EXTENDS ConnSetModel, Json, IOUtils
+EXTENDS ConnSetImpl, Json, IOUtils
 
 TraceFile == IF "TRACE" \in DOMAIN IOEnv THEN IOEnv.TRACE ELSE "trace.ndjson"
 Trace == ndJsonDeserialize(TraceFile)
 
-VARIABLES l, rs, sid, mism
-tvars == <<l, rs, sid, mism>>
+VARIABLES l, rs, irs, sid, mism
+tvars == <<l, rs, irs, sid, mism>>
 
-TInit == l = 1 /\ rs = [i \in Regs |-> Empty] /\ sid = -1 /\ mism = 0
+TInit == l = 1 /\ rs = [i \in Regs |-> Empty] /\ irs = [i \in Regs |-> CEmpty] /\ sid = -1 /\ mism = 0
 IsEvent(e) == l <= Len(Trace) /\ Trace[l].ev = e /\ l' = l + 1
 Report(ms) == /\ \A m \in ms : PrintT("MISMATCH " \o ToJson([line |-> l, wid |-> sid, m |-> m]))
               /\ mism' = mism + Cardinality(ms)
@@ -26,9 +26,23 @@ ObsDen(r) ==
    names |-> IF r.all THEN {} ELSE UNION {{pr} \X SeqSet(r.names[pr]) : pr \in Protos}]
 NoExcl(r) == \A pr \in Protos : Len(r.excl[pr]) = 0
 NameFree(r) == \A pr \in Protos : Len(r.names[pr]) = 0 /\ Len(r.excl[pr]) = 0
+(* the representation an observed register holds (design layer, ConnSetImpl.tla) *)
+ObsRep(r) ==
+  [all |-> r.allowAll,
+   pm  |-> [pr \in Protos |-> IF pr \in SeqSet(r.keys)
+                               THEN PS(SeqSet(r.pts[pr]), SeqSet(r.names[pr]), SeqSet(r.excl[pr]))
+                               ELSE Absent]]
+(* Design drift: the code's representation after the step is not the one ConnSetImpl!IApply predicts from the   *)
+(* representation before it.  NOT a verdict about the property (the denotation checks below are): it says that  *)
+(* the design-level proof of ConnSetImplCheck.tla no longer speaks about this code.                             *)
+ReportDrift(ev) ==
+  LET pred == IApply(irs, ev.o)
+      d == {i \in Regs : ObsRep(ev.regs[i]) # pred[i]}
+  IN \A i \in d : PrintT("DRIFT " \o ToJson([line |-> l, wid |-> sid, op |-> ev.o.op, reg |-> i,
+                                              predicted |-> ToString(pred[i]), observed |-> ToString(ObsRep(ev.regs[i]))]))
 
 TraceStart == /\ IsEvent("Start")
-              /\ rs' = [i \in Regs |-> Empty] /\ sid' = Trace[l].id
+              /\ rs' = [i \in Regs |-> Empty] /\ irs' = [i \in Regs |-> CEmpty] /\ sid' = Trace[l].id
               /\ UNCHANGED mism
 
 StepMismatches(ev, exp) ==
@@ -75,6 +89,8 @@ TraceStep == /\ IsEvent("Step")
              /\ LET ev == Trace[l]
                     exp == Apply(rs, ev.o)
                 IN /\ rs' = [i \in Regs |-> ObsDen(ev.regs[i])]   \* continue from what the code actually holds
+                   /\ irs' = [i \in Regs |-> ObsRep(ev.regs[i])]
+                   /\ (ev.panic = "" => ReportDrift(ev))
                    /\ Report(StepMismatches(ev, exp))
 
 TNext == TraceStart \/ TraceStep
